@@ -264,6 +264,9 @@ def get_pedal_type_from_value(value, evaluate_name=None) -> Type:
         else:
             # Resort to just matching the types?
             return DictType([(k, v) for k, v in items])
+    if isinstance(value, (bytes, type(Ellipsis))):
+        # No Pedal type models these literals; they are unknown values, not instances of a class to look up by name
+        return AnyType()
     if evaluate_name:
         new_instance = InstanceType(normalize_type(evaluate_name(type(value).__name__), evaluate_name))
         if fields and hasattr(value, '__dataclass_fields__'):
